@@ -115,6 +115,16 @@ CHECKS.update({
    note="2% slack on the tolerance; maxima located numerically; integer arguments judged at integers"),
 })
 
+CHECKS.update({
+ "C11": dict(level="exploration", engine="hypothesis+libFuzzer", design="3/C11",
+   technique="Hypothesis grammar-generated option strings over the three sources against a reference model of the documented semantics (real BasicSolver::ParseOptions in an ASan+UBSan shim, "
+             "inputs in exactly sized heap buffers); libFuzzer on arbitrary bytes with in-target oracle (exception family, return value vs errors, idempotence)",
+   text="16000 generated cases per quick run: assignments by name/synonym in any letter case, with/without '=', int/real/quoted/unquoted/command-line string values, wildcard keys, "
+        "flags, queries, unknown names, flags given values, all spread over mp_options, <exe>/<solver>_options and argv, with both error handlers; "
+        "plus about 500000 coverage-guided executions on arbitrary bytes.",
+   note="malformed inputs are judged for totality/memory safety only; tech:optionfile is excluded from fuzzing (it reads files)"),
+})
+
 NOT_APPLICABLE = []
 
 def main():
